@@ -183,7 +183,8 @@ def path_stream(pan, rng, n_local, n_circles):
 
 
 def _task(args):
-    lid, name, real, seed, n_local, n_circles = args
+    lid, name, real, seed, n_local, n_circles = args[:6]
+    tag = args[6] if len(args) > 6 else None
     rng = random.Random(seed)
     hits, counts = [], {}
     try:
@@ -194,12 +195,17 @@ def _task(args):
         return lid, 0, counts, hits, []
     calls = 0
     samples = []
-    for cls, kind, path, ts, top in path_stream(pan, rng, n_local, n_circles):
+    hits.extend(c05.structural_hits(pan, counts, tag))
+    for cls, kind, path, ts, top in (path_stream(pan, rng, n_local, n_circles) if n_local else []):
         calls += scan(pan, path, ts, top, hits, counts, cls, kind)
         if len(samples) < 2 and cls.startswith("edge"):
             samples.append({"layout": lid, "class": cls, "region": kind, "through": path.q.tolist(), "tangent": path.d.tolist()})
         if len(hits) > 20:
             break
+    if tag:
+        for h in hits:
+            if tag not in h["tags"]:
+                h["tags"].append(tag)
     return lid, calls, counts, hits[:6], samples
 
 
@@ -262,6 +268,14 @@ class C12(Spec):
             tasks.append((lid, name, real, "%s/%d/%s/%d" % (ctx.tier, ctx.seed, lid, ctx.rng.randrange(1 << 30)), n_local // 2, max(4, n_circles // 2)))
         for lid, name, real in c05.boundary_for_run(ctx, 12 if ctx.quick else None):
             tasks.append((lid, name, real, "%s/%d/%s/%d" % (ctx.tier, ctx.seed, lid, ctx.rng.randrange(1 << 30)), max(40, n_local // 3), max(3, n_circles // 3)))
+        # corner layouts (fixed seed): structural check on all, path search on a seeded sample (all when thorough)
+        csym, casym = c05.corner_catalogue()
+        full = None if not ctx.quick else {c[0] for c in ctx.rng.sample(csym, min(6, len(csym))) + ctx.rng.sample(casym, min(10, len(casym)))}
+        for fam, tag in ((csym, None), (casym, "asymmetric-catalogue:")):
+            for lid, name, real in fam:
+                on = full is None or lid in full
+                tasks.append((lid, name, real, "%s/%d/%s" % (ctx.tier, ctx.seed, lid), max(40, n_local // 3) if on else 0,
+                              max(3, n_circles // 3) if on else 0, (tag + lid) if tag else None))
         mx_d, mx_L = 0.0, 0.0
         for lid, calls, counts, hits, samples in c05.run_pool(tasks, _task):
             mx_d = max(mx_d, counts.pop("max-final-delta", 0.0))
